@@ -225,7 +225,9 @@ OpRemove(tb, t, k) ==
            sit |-> (IF tofree THEN "tofree" ELSE "totomb") \o (IF f.i = cap - 1 THEN "+lastslot" ELSE "") \o f.sit]
 
 (* retain(predicate = key \in P, drop): the loop `for slot in data.iter_mut().rev()`;
-   st = [d, len, free, lif (last_is_free), rem (i), seen, dropped, t2f, ub] *)
+   st = [d, len, free, lif (last_is_free), rem (i), seen, dropped, ub] and, for the
+   situation tag only, which branches were taken: t2f (tombstone -> FREE), tk
+   (tombstone kept), rf / rt (rejected element -> FREE / TOMBSTONE) *)
 RECURSIVE RetainFrom(_, _, _)
 RetainFrom(st, j, P) ==
   IF j = 0 THEN [st EXCEPT !.ub = TRUE]                           \* unreachable_unchecked()
@@ -234,13 +236,14 @@ RetainFrom(st, j, P) ==
   IF s.st = 0 THEN RetainFrom([st EXCEPT !.lif = TRUE], j - 1, P)
   ELSE IF s.st = 1 THEN
     IF st.lif THEN RetainFrom([st EXCEPT !.d[j] = FREE, !.free = @ + 1, !.t2f = TRUE], j - 1, P)
-    ELSE RetainFrom(st, j - 1, P)
+    ELSE RetainFrom([st EXCEPT !.tk = TRUE], j - 1, P)
   ELSE
     LET st1 == IF s.k \in P
                THEN [st EXCEPT !.lif = FALSE, !.seen = Append(@, El(s)), !.rem = @ - 1]
                ELSE [st EXCEPT !.len = @ - 1, !.d[j] = IF st.lif THEN FREE ELSE TOMB,
                                !.free = IF st.lif THEN @ + 1 ELSE @,
-                               !.seen = Append(@, El(s)), !.dropped = Append(@, El(s)), !.rem = @ - 1]
+                               !.seen = Append(@, El(s)), !.dropped = Append(@, El(s)), !.rem = @ - 1,
+                               !.rf = @ \/ st.lif, !.rt = @ \/ ~st.lif]
     IN  IF st1.rem = 0 THEN st1 ELSE RetainFrom(st1, j - 1, P)
 
 OpRetain(tb, t, P) ==
@@ -249,7 +252,7 @@ OpRetain(tb, t, P) ==
   ELSE
   LET st == RetainFrom([d |-> tb.data, len |-> tb.len, free |-> tb.free,
                         lif |-> tb.data[1].st = 0, rem |-> tb.len, seen |-> <<>>, dropped |-> <<>>,
-                        t2f |-> FALSE, ub |-> FALSE], Cap(tb), P)
+                        t2f |-> FALSE, tk |-> FALSE, rf |-> FALSE, rt |-> FALSE, ub |-> FALSE], Cap(tb), P)
   IN  IF st.ub THEN HangEv("retain", t, 0, 0, P, 0)
       ELSE
       LET t1 == [data |-> st.d, len |-> st.len, free |-> st.free, hung |-> FALSE]
@@ -258,7 +261,8 @@ OpRetain(tb, t, P) ==
       IN  IF t2.hung THEN HangEv("retain", t, 0, 0, P, 0)
           ELSE [tab |-> t2, ev |-> Ev("retain", t, 0, 0, 0, P, 0, "ok", t2.len, st.dropped, st.seen),
                 sit |-> (IF st.dropped = <<>> THEN "keepall" ELSE IF st.len = 0 THEN "dropall" ELSE "drop")
-                        \o (IF st.t2f THEN "+t2f" ELSE "")
+                        \o (IF st.t2f THEN "+t2f" ELSE "") \o (IF st.tk THEN "+tk" ELSE "")
+                        \o (IF st.rf THEN "+rf" ELSE "") \o (IF st.rt THEN "+rt" ELSE "")
                         \o (IF ~shrink THEN "" ELSE IF Cap(t2) = 0 THEN "+shrink0"
                             ELSE IF Cap(t2) < Cap(tb) THEN "+shrink" ELSE "+rehash")]
 
